@@ -78,6 +78,8 @@ Next == /\ Len(hist) < MaxLen
         /\ img' = Apply(val', P0)
         /\ UNCHANGED mode
 
+\* simulation mode: long lists / long operation histories
+Emit == Len(hist) = MaxLen => PrintT(<<"CASE", mode, hist, val, img>>)
 \* ---- properties of the specification itself -------------------------------
 ListIsDenotation == mode = "list" => val = Denote(hist)
 InverseTwoSided  == Det(val) # RZero => (Then(val, Inverse(val)) = Id /\ Then(Inverse(val), val) = Id)
